@@ -51,6 +51,14 @@ def run(tier):
             cases.append({"id": len(cases), "model": MODEL2, "answer": ans,
                           "opts": ["alg:iisfind=1", "alg:rays=3", "obj:multi=1"],
                           "abs": {"code": c, "hasPrimal": bool(p), "hasDual": bool(d), "hasObj": bool(o), "multi": True}})
+    # the same codes delivered by exception (Abort(code, msg)); codes <= 1 are indistinguishable from an
+    # exception without a code and are reported as a generic failure, so they are not part of this family
+    for c in codes:
+        if c >= 2 and (tier == "thorough" or c in edge or rnd.random() < 0.08):
+            cases.append({"id": len(cases), "model": MODEL, "answer": "abort %d\n" % c, "opts": [],
+                          "abs": {"code": c, "hasPrimal": False, "hasDual": False, "hasObj": False, "multi": False, "abort": True}})
+    for c_ in cases:
+        c_["abs"].setdefault("abort", False)
     results = drv.run_cases(exe, PID, cases)
     d = outdir(PID)
     trace = os.path.join(d, "trace-%s.ndjson" % tier)
@@ -100,7 +108,7 @@ def run(tier):
         "traces_validated_against_impl": len(cases),
         "samples": [cases[0]["abs"], cases[len(cases) // 2]["abs"], open(trace).read().splitlines()[2:8]],
         "evaluations": len(cases), "codes": len(codes), "exhaustive": True,
-        "explanation": "every status code -200..999 run through a real driver (scripted backend), answer shapes primal/dual/objective present or absent, single objective and two objectives under obj:multi=1 (native multi-objective backend); each run validated by TLC as a behaviour of SolveCodes.tla; -! table compared with the documented ranges",
+        "explanation": "every status code -200..999 run through a real driver (scripted backend), answer shapes primal/dual/objective present or absent, single objective and two objectives under obj:multi=1 (native multi-objective backend); codes 2..999 also delivered by exception (StdBackend::Abort); each run validated by TLC as a behaviour of SolveCodes.tla; -! table compared with the documented ranges",
         "design_check": {"module": "MCSolveCodes", "distinct_states": mc.distinct},
         "rejected": len(printed_json(res, "BAD")), "violations_new": nnew,
     }, time.time() - t0, violations=nnew,
